@@ -11,7 +11,7 @@ use std::slice;
 
 #[cfg(kani)]
 #[path = "/verif/kani/h_data.rs"]
-mod verif_kani;
+pub(crate) mod verif_kani;
 
 /// A chance information set for cached sampling
 #[derive(Debug)]
@@ -34,7 +34,10 @@ impl SampledChance {
     /// This will return the same value on successive calls until reset is called
     pub fn sample(&mut self) -> usize {
         if self.cached == 0 {
+            #[cfg(not(kani))]
             let res = self.index.sample(&mut thread_rng());
+            #[cfg(kani)]
+            let res = verif_kani::draws::draw(0, self as *const Self as usize, 0, 0);
             self.cached = res + 1;
             res
         } else {
